@@ -7,7 +7,7 @@ M="$1"; PROPS="${2:-}"
 D=$(mktemp -d /tmp/seed_XXXXXX)
 git -C /repo worktree add -q --detach "$D/wt" HEAD || exit 3
 if ! git -C "$D/wt" apply "$M/patch.diff" 2>/tmp/apply.err; then echo "PATCH-DOES-NOT-APPLY $(head -2 /tmp/apply.err)"; git -C /repo worktree remove --force "$D/wt"; rm -rf "$D"; exit 3; fi
-SUITE=$(/tmp/mutkit/run_suite.sh "$D/wt" | head -3 | tr '\n' ' ')
+SUITE=$(/verif/tools/run_suite.sh "$D/wt" | head -3 | tr '\n' ' ')
 ( cd "$M" && PYTHONPATH="$D/wt/src" MPLBACKEND=Agg timeout 300 /venv/bin/python demo.py >/dev/null 2>&1 ); DEMO_MUT=$?
 ( cd "$M" && PYTHONPATH="/repo/src" MPLBACKEND=Agg timeout 300 /venv/bin/python demo.py >/dev/null 2>&1 ); DEMO_CLEAN=$?
 echo "[$(basename $(dirname $M))/$(basename $M)] $SUITE | demo clean=$DEMO_CLEAN mutant=$DEMO_MUT"
